@@ -35,6 +35,32 @@ theorem subject_drops_used (txt : List Nat) (tokenTexts : List (List Nat)) (w : 
   have : (usedWords tokenTexts).contains w = true := by simpa using hu
   rw [List.mem_filter]; intro h; rw [this] at h; simp at h
 
+/-- **every occurrence** of an unused word is kept: it occurs in the subject's word list exactly as often as in the text
+(a word written twice stays written twice), and a used word occurs zero times -/
+theorem subject_count (txt : List Nat) (tokenTexts : List (List Nat)) (w : List Nat) :
+    ((reSplit (reLit "_ctparse" "split") txt).filter fun w => !(usedWords tokenTexts).contains w).count w =
+      if w ∈ usedWords tokenTexts then 0 else (reSplit (reLit "_ctparse" "split") txt).count w := by
+  by_cases hu : w ∈ usedWords tokenTexts
+  · rw [if_pos hu]
+    exact List.count_eq_zero.2 (subject_drops_used txt tokenTexts w hu)
+  · rw [if_neg hu]
+    have hc : (usedWords tokenTexts).contains w = false := by simpa using hu
+    exact List.count_filter (by rw [hc]; rfl)
+
+/-- when no word of the text is used by a token, the subject's word list **is** the text's word list (nothing dropped, merged or reordered) -/
+theorem subject_all_of_unused (txt : List Nat) (tokenTexts : List (List Nat))
+    (h : ∀ w ∈ reSplit (reLit "_ctparse" "split") txt, w ∉ usedWords tokenTexts) :
+    ((reSplit (reLit "_ctparse" "split") txt).filter fun w => !(usedWords tokenTexts).contains w) = reSplit (reLit "_ctparse" "split") txt := by
+  rw [List.filter_eq_self]
+  intro w hw
+  have : (usedWords tokenTexts).contains w = false := by simpa using h w hw
+  rw [this]; rfl
+
+/-- the decision for a word does not depend on where it stands or on its neighbours: filtering commutes with concatenation of word lists -/
+theorem subject_local (a b : List (List Nat)) (tokenTexts : List (List Nat)) :
+    (a ++ b).filter (fun w => !(usedWords tokenTexts).contains w) =
+      a.filter (fun w => !(usedWords tokenTexts).contains w) ++ b.filter (fun w => !(usedWords tokenTexts).contains w) := List.filter_append ..
+
 /-- `subjectOf` is the blank-join of exactly that filtered list -/
 theorem subject_def (txt : List Nat) (tokenTexts : List (List Nat)) :
     subjectOf txt tokenTexts = joinBlank ((reSplit (reLit "_ctparse" "split") txt).filter fun w => !(usedWords tokenTexts).contains w) := rfl
